@@ -22,6 +22,7 @@ fn property(id: &str) -> Option<Box<dyn Property>> {
         "C07" => Some(Box::new(props::c07::C07)),
         "C10" => Some(Box::new(props::c10::C10)),
         "C12" => Some(Box::new(props::c12::C12)),
+        "C13" => Some(Box::new(props::c13::C13)),
         "C14" => Some(Box::new(props::c14::C14)),
         "C15" => Some(Box::new(props::c15::C15)),
         _ => None,
